@@ -23,7 +23,8 @@ CLAIMED = {
                 "grammar's tree for every derivable condition of any size (not binds one operand, cmp > or > and, left "
                 "associativity, parentheses), parens_redundant / parens_operand the parenthesis laws, space_doubling / "
                 "leading_space the whitespace laws, keyword_prefix_words that words beginning with keyword letters are "
-                "identifiers (from the regenerated keyword table); tokenise_render / text_to_tree (C05_lex) that the tokeniser "
+                "identifiers (from the regenerated keyword table), keyword_needs_blank (C05_kwtab) that and / or / not followed by a "
+                "tab or line break instead of a blank is an identifier -- a load error, never another tree; tokenise_render / text_to_tree (C05_lex) that the tokeniser "
                 "inverts a canonical printer of token lists with any number of extra spaces, so every condition of the grammar "
                 "WRITTEN AS TEXT loads as the grammar's tree; all conditions up to 3-4 operators in three renderings and "
                 "all 3^k assignments are compared with an independent recursive-descent reference on the crate.",
